@@ -23,6 +23,7 @@ ASSUMPTIONS = [
 
 MAXC = 2 ** 29
 FTS = ["gene", "exon", "CDS"]
+FT_COMMA = "exon,CDS"  # a featuretype is any text: one that contains a comma is one featuretype, not two
 SEQIDS = ["chr1", "chr2", "X", "Chr1"]  # seqids are case-sensitive
 
 
@@ -75,7 +76,7 @@ class QueriesLeg(object):
             q = {"kind": kind, "start": iv[0], "end": iv[1], "seqid": draw(st.sampled_from(SEQIDS)),
                  "within": draw(st.booleans()),
                  "strand": draw(st.sampled_from([None, None, "+", "-", "."])),
-                 "featuretype": draw(st.sampled_from([None, None, "exon", ["exon", "CDS"], ["gene"]]))}
+                 "featuretype": draw(st.sampled_from([None, None, None, "exon", "exon", ["exon", "CDS"], ["gene"], FT_COMMA]))}
             if kind == "region":
                 q["form"] = draw(st.sampled_from(["tuple", "string", "feature", "kw", "kw-noseqid", "kw-start-only", "kw-end-only",
                                                   "string-strand"]))
@@ -93,7 +94,7 @@ class QueriesLeg(object):
             for i in range(n):
                 iv = draw(interval())
                 feats.append({"id": "f%d" % i, "seqid": draw(st.sampled_from(SEQIDS[: draw(st.integers(1, 3))])),
-                              "ft": draw(st.sampled_from(FTS)), "start": iv[0], "end": iv[1],
+                              "ft": draw(st.sampled_from(FTS + FTS + [FT_COMMA])), "start": iv[0], "end": iv[1],
                               "strand": draw(st.sampled_from(["+", "-", "."])),
                               "parent": i > 0 and draw(st.integers(0, 2)) > 0})
             qs = draw(st.lists(query(), min_size=12, max_size=20))
@@ -382,4 +383,73 @@ class QueriesLeg(object):
         return None
 
 
-LEGS = [QueriesLeg()]
+class StoredTruthLeg(object):
+    """A GTF database whose inferred genes / transcripts change when update() brings further exons (possibly in another
+    bin); whatever the importer stored, every region()/limit= answer must be the brute-force filter of the stored rows."""
+    kind = "hyp"
+    name = "gtf-history"
+    budget = {"quick": (8, 40), "thorough": (16, 600)}
+
+    def strategy(self):
+        from hypothesis import strategies as st
+
+        far = st.sampled_from([131072 - 400, 131072 + 9000, 140000, 1048576 - 300, 1048576 + 50, 3000, 8388608 + 5])
+        exon = st.tuples(st.integers(100, 6000), st.integers(0, 900))
+
+        return st.fixed_dictionaries({
+            "first": st.lists(st.tuples(st.sampled_from(["t1", "t1", "t2"]), exon), min_size=1, max_size=4),
+            "later": st.lists(st.tuples(st.sampled_from(["t1", "t1", "t2", "t3"]), far, st.integers(0, 2000)), min_size=1, max_size=3),
+            "reopen": st.booleans(),
+            "file_db": st.booleans(),
+            "margins": st.lists(st.sampled_from([0, 1, 2, 500, 5000, 200000]), min_size=2, max_size=4),
+        })
+
+    def classify(self, case):
+        first_tx = set(t for t, _ in case["first"])
+        ext = any(t in first_tx for t, _, _ in case["later"])
+        return ext, ["extends-an-inferred-transcript" if ext else "new-transcripts-only"]
+
+    @staticmethod
+    def _line(t, s, e):
+        return 'chr1\tsrc\texon\t%d\t%d\t.\t+\t.\tgene_id "g1"; transcript_id "%s";' % (s, e, t)
+
+    def check(self, case, ctx):
+        import gffutils
+
+        l1 = [self._line(t, s, s + n) for t, (s, n) in case["first"]]
+        l2 = [self._line(t, s, s + n) for t, s, n in case["later"]]
+        dbfn = ctx.path("h.db") if case["file_db"] else ":memory:"
+        db = gffutils.create_db("\n".join(l1) + "\n", dbfn, from_string=True)
+        list(db.all_features(limit=("chr1", 1, 10000)))
+        db.update(ctx.write("h2.gtf", "\n".join(l2) + "\n"), make_backup=False)
+        if case["reopen"] and case["file_db"]:
+            db.conn.close()
+            db = gffutils.FeatureDB(dbfn)
+        stored = [{"id": f.id, "seqid": f.seqid, "start": f.start, "end": f.end, "ft": f.featuretype} for f in db.all_features()]
+        if sum(1 for f in stored if f["ft"] == "exon") != len(l1) + len(l2):
+            return Failure("%d exon lines given, %d stored" % (len(l1) + len(l2), sum(1 for f in stored if f["ft"] == "exon")), sig={"kind": "row-count"})
+        nq = 0
+        for f in stored:
+            for m in case["margins"]:
+                s, e = max(1, f["start"] - m), f["end"] + m
+                for w in (False, True):
+                    pred = within if w else overlaps
+                    for ft in (None, "gene", "transcript"):
+                        want = sorted(x["id"] for x in stored if pred(x, s, e) and (ft is None or x["ft"] == ft))
+                        kw = {"completely_within": w}
+                        calls = [("region", lambda: db.region(seqid="chr1", start=s, end=e, featuretype=ft, **kw)),
+                                 ("all_features(limit=)", lambda: db.all_features(limit=("chr1", s, e), featuretype=ft, **kw))]
+                        if ft is not None:
+                            calls.append(("features_of_type(limit=)", lambda: db.features_of_type(ft, limit="chr1:%d-%d" % (s, e), **kw)))
+                        for name, call in calls:
+                            got = sorted(x.id for x in call())
+                            nq += 1
+                            if got != want:
+                                return Failure("after a GTF update: %s chr1:%d-%d (completely_within=%s, featuretype=%r) = %r, the stored rows "
+                                               "that match are %r" % (name, s, e, w, ft, got, want),
+                                               sig={"kind": "limit" if "limit" in name else "region", "where": "gtf-history"})
+        ctx.count("queries against stored rows", nq)
+        return None
+
+
+LEGS = [QueriesLeg(), StoredTruthLeg()]
